@@ -1214,11 +1214,11 @@ def gen_plan(seed: int, cfg: dict) -> dict:
                     fault_sub = {"kind": "transient", "on": sorted({r.randrange(1, 4) for _ in range(r.randrange(1, 3))})}
                 else:
                     fault_sub = {"kind": "raise"}
-            elif "native" in enabled and x < (0.7 if is_noise else 0.2):
+            elif "native" in enabled and x < (0.7 if is_noise else 0.3):
                 y = r.random()
-                if y < 0.35:
+                if y < 0.25:
                     fault_sub = {"kind": "badtype"}
-                elif y < 0.5:
+                elif y < 0.4:
                     fault_sub = {"kind": "nonexpr"}
                 elif y < 0.75:
                     fault_sub = {"kind": "needv", "v": r.choice([5, 6, 7, 7, 8, 10])}
